@@ -117,3 +117,14 @@ claim('C13',
       'one Create whose change names exactly the effective target and, per operation, the named path, kind and value.',
       'Pool and operation count bounds as stated; JSON-valued updates outside (plugin GetPathValues). Trusted: go/ssa, executor, z3.',
       'SSA symbolic execution + SMT (z3), case-split request shapes vs reference resolver', 'DESIGN.md 6/C13')
+claim('C19',
+      'The real Subscribe / processSubscribeRequest / splitSubscribeRequest / copyPrefix / sendSubscriptionRequest (with the real '
+      'client.NewQuery) / sendPollRequest and the ProtoHandler closure are executed symbolically on scripted streams of 1..3 messages '
+      '(subscribe / poll / neither; case split) with 0..2 subscription entries whose per-path and prefix targets and all list-level options are '
+      'symbolic; fake per-target clients record the query and emit a response through the query\'s handler. Oracle on the script: each '
+      'target is contacted iff named, gets pointer-identical exactly its own entries in order (or the unmodified request in prefix mode), '
+      'copied list options and prefix, polls reach exactly the subscribed targets, responses are relayed as received and nothing else is '
+      'sent, second subscribe / early poll / no target / unknown message is refused.',
+      'Bounds: <= 3 messages, <= 2 entries, two known targets; sequential execution of the stream loop; openconfig path.ToStrings cut. '
+      'Trusted: go/ssa, executor, z3.',
+      'SSA symbolic execution + SMT (z3), case-split message scripts vs oracle', 'DESIGN.md 6/C19')
